@@ -103,8 +103,15 @@ func bitAnd(a, b bvBit) bvBit {
 		return a
 	case a == b:
 		return a
+	case bitComplementary(a, b):
+		return bvBit{K: '0'}
 	}
 	return bvBit{K: '?'}
+}
+
+// bitComplementary: a and b are one source bit and its negation.
+func bitComplementary(a, b bvBit) bool {
+	return (a.K == 's' && b.K == 'n' || a.K == 'n' && b.K == 's') && a.Src == b.Src && a.Idx == b.Idx
 }
 
 func bitOr(a, b bvBit) bvBit {
@@ -117,6 +124,8 @@ func bitOr(a, b bvBit) bvBit {
 		return a
 	case a == b:
 		return a
+	case bitComplementary(a, b):
+		return bvBit{K: '1'}
 	}
 	return bvBit{K: '?'}
 }
@@ -144,8 +153,44 @@ func bitXor(a, b bvBit) bvBit {
 		return neg(b)
 	case b.K == '1':
 		return neg(a)
+	case a.K != '?' && a == b:
+		return bvBit{K: '0'}
+	case bitComplementary(a, b):
+		return bvBit{K: '1'}
 	}
 	return bvBit{K: '?'}
+}
+
+// bvAddSub is a ripple-carry adder over the bit domain: a+b, or a−b as a+¬b+1, modulo
+// 2^width. Every sum and carry bit is computed with the exact gate functions above, so a
+// result bit is a constant, a source bit or its negation only when that is what the
+// arithmetic yields for every value of the sources; nil when some bit cannot be expressed.
+func bvAddSub(a, b *bv, width int, sub bool) *bv {
+	if a == nil || b == nil || a.Tag != "" || b.Tag != "" {
+		return nil
+	}
+	a, b = a.resize(width, false), b.resize(width, false)
+	carry := bvBit{K: '0'}
+	if sub {
+		carry = bvBit{K: '1'}
+	}
+	out := &bv{Bits: make([]bvBit, width)}
+	for i := 0; i < width; i++ {
+		x, y := a.Bits[i], b.Bits[i]
+		if sub {
+			y = bitXor(y, bvBit{K: '1'})
+		}
+		s := bitXor(bitXor(x, y), carry)
+		if s.K == '?' {
+			return nil
+		}
+		out.Bits[i] = s
+		carry = bitOr(bitOr(bitAnd(x, y), bitAnd(x, carry)), bitAnd(y, carry))
+		if carry.K == '?' && i+1 < width {
+			return nil
+		}
+	}
+	return out
 }
 
 func bvBinary(op string, a, b *bv, width int) *bv {
